@@ -431,6 +431,44 @@ def atoms(cond: ast.AST, truth: bool) -> List[Tuple[str, bool]]:
     return [(U(cond), truth)]
 
 
+def path_facts(p: "Path") -> Dict[str, bool]:
+    """Atomic facts known on a path, closed under unit propagation:
+    not(a and b) with a known true gives not b;  (a or b) with a known false gives b."""
+    f: Dict[str, bool] = {}
+    pending = []
+    for c, t, _ in p.conds:
+        for a, pol in atoms(c, t):
+            f.setdefault(a, pol)
+        core, truth = c, t
+        while isinstance(core, ast.UnaryOp) and isinstance(core.op, ast.Not):
+            core, truth = core.operand, not truth
+        if isinstance(core, ast.BoolOp) and ((isinstance(core.op, ast.And) and not truth) or (isinstance(core.op, ast.Or) and truth)):
+            pending.append((core, truth))
+    changed = True
+    while changed:
+        changed = False
+        for core, truth in pending:
+            isand = isinstance(core.op, ast.And)
+            unknown = []
+            decided = False
+            for v in core.values:
+                lits = atoms(v, True)
+                if len(lits) == 1 and lits[0][0] in f:
+                    val = f[lits[0][0]] == lits[0][1]
+                    if val != isand:  # a false conjunct / a true disjunct settles the clause
+                        decided = True
+                        break
+                else:
+                    unknown.append(v)
+            if decided or len(unknown) != 1:
+                continue
+            for a, pol in atoms(unknown[0], not isand):
+                if a not in f:
+                    f[a] = pol
+                    changed = True
+    return f
+
+
 class PathEnum:
     """Enumerates acyclic paths of one function with local substitution.
 
